@@ -65,3 +65,15 @@ let traces (ls : string list) : string list list =
   go [] [] ls
 
 let join_n (l : n list) = String.concat " " (List.map string_of_n l)
+
+(* driver main: one "T id" line per trace, then one line per input line; a model Fault prints
+   "CRASH model:<fault>" and the rest of the trace is skipped. *)
+let main (run : string list -> unit) =
+  List.iter (fun tr ->
+    (match split_ws (List.hd tr) with
+     | _ :: id :: _ -> Printf.printf "T %s\n" id
+     | _ -> ());
+    (try run tr with
+     | Crash f -> Printf.printf "\nCRASH model:%s\n" (fault_name f)
+     | Stack_overflow -> Printf.printf "\nCRASH model:StackOverflow\n");
+    flush stdout) (traces (read_lines ()))
